@@ -7,6 +7,7 @@ import (
 	"os"
 	"os/exec"
 	"path/filepath"
+	"regexp"
 	"strings"
 	"sync"
 	"time"
@@ -20,10 +21,10 @@ type solverSpec struct {
 
 var solvers = []solverSpec{
 	{"z3-new-5.1.0", func(file string, ms int) []string {
-		return []string{"z3-new", "-smt2", fmt.Sprintf("-t:%d", ms), file}
+		return []string{"z3-new", "-smt2", "smt.mbqi=false", fmt.Sprintf("-t:%d", ms), file}
 	}, nil},
 	{"z3-4.8.12", func(file string, ms int) []string {
-		return []string{"/usr/bin/z3", "-smt2", fmt.Sprintf("-t:%d", ms), file}
+		return []string{"/usr/bin/z3", "-smt2", "smt.mbqi=false", fmt.Sprintf("-t:%d", ms), file}
 	}, nil},
 	{"cvc5-1.0", func(file string, ms int) []string {
 		return []string{"cvc5", "--incremental", fmt.Sprintf("--tlimit-per=%d", ms), file}
@@ -33,9 +34,59 @@ var solvers = []solverSpec{
 // incrementalScript renders the whole unit as one push/pop script.
 const coverTimeoutMs = 1500
 
+var ufSym = regexp.MustCompile(`uf_[A-Za-z0-9_]+`)
+
+// relevantAxioms selects the spec axioms that mention an uninterpreted symbol used by the unit
+// (transitively through the selected axioms).
+func (u *Unit) relevantAxioms() string {
+	used := map[string]bool{}
+	for _, l := range u.Script.lines {
+		for _, m := range ufSym.FindAllString(l, -1) {
+			used[m] = true
+		}
+	}
+	for _, o := range u.Script.obls {
+		for _, m := range ufSym.FindAllString(o.Goal.S+" "+o.Reach.S, -1) {
+			used[m] = true
+		}
+	}
+	picked := make([]bool, len(u.Script.axioms))
+	for changed := true; changed; {
+		changed = false
+		for i, ax := range u.Script.axioms {
+			if picked[i] {
+				continue
+			}
+			syms := ufSym.FindAllString(ax, -1)
+			hit := len(syms) == 0
+			for _, m := range syms {
+				if used[m] {
+					hit = true
+				}
+			}
+			if hit {
+				picked[i] = true
+				changed = true
+				for _, m := range syms {
+					used[m] = true
+				}
+			}
+		}
+	}
+	var b strings.Builder
+	for i, ax := range u.Script.axioms {
+		if picked[i] {
+			b.WriteString(ax)
+			b.WriteString("\n")
+		}
+	}
+	return b.String()
+}
+
 func (u *Unit) incrementalScript() string {
 	var b strings.Builder
 	b.WriteString(u.Preamble)
+	b.WriteString(u.relevantAxioms())
 	fmt.Fprintf(&b, "(set-option :timeout %d)\n", u.timeoutMs)
 	sc := u.Script
 	oi := 0
@@ -66,6 +117,7 @@ func (u *Unit) incrementalScript() string {
 func (u *Unit) standaloneScript(oi int, model bool) string {
 	var b strings.Builder
 	b.WriteString(u.Preamble)
+	b.WriteString(u.relevantAxioms())
 	o := u.Script.obls[oi]
 	for i := 0; i < o.Index; i++ {
 		b.WriteString(u.Script.lines[i])
